@@ -13,10 +13,13 @@ pub enum SrcClass {
     /// Image-like: padding holes of 0x00 / 0xff / 0x80 / another constant between payload
     /// segments — large level shifts within one (large) hash window.
     LevelShift,
+    /// A long incompressible region (media, encrypted data) followed by a long compressible
+    /// one (text), possibly repeated: compressibility changes along the stream.
+    MixedEntropy,
 }
 
 /// SRC_CLASSES plus the classes only the chunker checks draw from.
-pub const SRC_CLASSES_EXT: [SrcClass; 7] = [
+pub const SRC_CLASSES_EXT: [SrcClass; 8] = [
     SrcClass::Random,
     SrcClass::Constant,
     SrcClass::LowEntropy,
@@ -24,6 +27,7 @@ pub const SRC_CLASSES_EXT: [SrcClass; 7] = [
     SrcClass::BlockRepetitive,
     SrcClass::Zeros,
     SrcClass::LevelShift,
+    SrcClass::MixedEntropy,
 ];
 
 pub const SRC_CLASSES: [SrcClass; 6] = [
@@ -56,6 +60,26 @@ pub fn gen_source(rng: &mut Rng, class: SrcClass, len: usize) -> Vec<u8> {
                 } else {
                     v.extend(rng.bytes(run));
                 }
+            }
+            v.truncate(len);
+            v
+        }
+        SrcClass::MixedEntropy => {
+            let mut v = Vec::with_capacity(len);
+            let words: [&[u8]; 6] = [b"the ", b"quick ", b"brown ", b"fox ", b"jumps ", b"\n"];
+            let mut random_part = rng.chance(2, 3);
+            while v.len() < len {
+                let region = rng.urange(1 + len / 5, 2 + len / 2);
+                if random_part {
+                    v.extend(rng.bytes(region));
+                } else {
+                    let end = v.len() + region;
+                    while v.len() < end {
+                        let w: &[u8] = words[rng.usize_below(words.len())];
+                        v.extend_from_slice(w);
+                    }
+                }
+                random_part = !random_part;
             }
             v.truncate(len);
             v
